@@ -115,7 +115,7 @@ PINNED_LAMBDAS = {
     ("+", 2): "lambda a, b: a + b", ("-", 2): "lambda a, b: a - b", ("*", 2): "lambda a, b: a * b",
     ("/\\", 2): "lambda a, b: a & b", ("\\/", 2): "lambda a, b: a | b", ("xor", 2): "lambda a, b: a ^ b",
     ("#", 2): "lambda a, b: a ^ b", ("><", 2): "lambda a, b: a ^ b", ("/", 2): "lambda a, b: a / b",
-    ("//", 2): "lambda a, b: a // b", ("<<", 2): "lambda a, b: a << b", (">>", 2): "lambda a, b: a >> b",
+    ("//", 2): "lambda a, b: (a // b if b > 0 else -(a // -b)) if a >= 0 else -(-a // b) if b > 0 else -a // -b",   # truncating (commit 0b983d1) ("<<", 2): "lambda a, b: a << b", (">>", 2): "lambda a, b: a >> b",
     ("mod", 2): "lambda a, b: a % b", ("rem", 2): "lambda a, b: a % b", ("div", 2): "lambda a, b: (a - a % b) // b",
     ("**", 2): "lambda a, b: a ** b", ("^", 2): "lambda a, b: a ** b", ("+", 1): "lambda a: a", ("-", 1): "lambda a: -a",
     ("\\", 1): "lambda a: ~a", ("integer", 1): "int", ("float", 1): "float", ("float_integer_part", 1): "lambda f: int(f)",
